@@ -10,7 +10,7 @@ def shard_events(events, nshards):
     """split a list of events into <= nshards lists, cutting only at `reset` events"""
     runs, cur = [], []
     for e in events:
-        if e.get("ev") == "reset" and e.get("pair") != "B" and cur:
+        if e.get("ev") == "reset" and e.get("pair") not in ("B", "CB") and cur:
             runs.append(cur)
             cur = []
         cur.append(e)
@@ -31,7 +31,7 @@ def harness_runs(ctx, cases, tag="ivp", task="ivp", nproc=8, timeout=3000):
     from concurrent.futures import ThreadPoolExecutor
     units = []
     for c in cases:
-        if c.get("pair") == "B" and units:
+        if c.get("pair") in ("B", "CB") and units:
             units[-1].append(c)       # a B run stays right behind its A run
         else:
             units.append([c])
